@@ -5,7 +5,7 @@
 # runs the property's check against the mutated copy, and stores everything under /verif/seeded/<ID><suffix>/.
 set -u
 ID="$1"; RUNS="${2:-}"; SUF="${3:-}"
-SRC="/tmp/wt-$ID/_out"; DST="/verif/seeded/$ID$SUF"
+SRC="${SEED_SRC:-/tmp/wt-$ID/_out}"; DST="/verif/seeded/$ID$SUF"
 [ -f "$SRC/patch.diff" ] || { echo "no patch.diff in $SRC"; exit 3; }
 mkdir -p "$DST"; cp "$SRC/patch.diff" "$SRC/demo.py" "$DST/" ; cp "$SRC/meta.json" "$DST/meta.agent.json" 2>/dev/null
 D="/dev/shm/seed-$ID-$$"; rm -rf "$D"; mkdir -p "$D"
